@@ -82,7 +82,9 @@ def gen_auth_scenario(rng, case, prop):
             # an indented continuation line / trailing comment
             lines.insert(rng.randint(0, len(lines)), "   // note")
         text = "\n".join(lines)
-        steps.append({"k": "req", "who": "eve", "kg": None if use_session else start_kg,
+        # a session-bound request may also name a graph explicitly (another one than the session's)
+        explicit = rng.choice(["g1", "g2", "default", "_internal"]) if use_session and rng.random() < 0.25 else None
+        steps.append({"k": "req", "who": "eve", "kg": explicit if use_session else start_kg,
                       "sid": "s1" if use_session else None, "text": text, "judge": ["C27", "C29"], "markers": markers})
     for s in steps:
         s.setdefault("judge", [])
